@@ -147,7 +147,9 @@ def rebuild_case(lit):
 
 def values_orders_arg(case):
     from AutoCarver.discretizers import GroupedList
-    return {f: (GroupedList({k: list(m) for k, m in v.items()}) if isinstance(v, dict) else GroupedList(list(v))) for f, v in case['values_orders'].items()}
+    # a ranking is accepted as list or numpy array (same GroupedList whatever the container): the container is picked by the length of the ranking
+    def seq(v): return [list(v), np.array(list(v), dtype=object)][len(v) % 2]
+    return {f: (GroupedList({k: list(m) for k, m in v.items()}) if isinstance(v, dict) else GroupedList(seq(v))) for f, v in case['values_orders'].items()}
 
 
 def make_carver(case, cfg):
